@@ -453,15 +453,31 @@ def b_sorted(eng, node, st):
     raise Unsupported("sorted of %r" % (v,))
 
 
+def sorted_fn(elem):
+    """the uninterpreted function standing for the builtin sorted() on lists of this element sort: (array, length) -> array"""
+    es = elem.z3sort()
+    arrs = z3.ArraySort(z3.IntSort(), es)
+    return z3.Function("SORTED_" + "".join(ch for ch in str(es) if ch.isalnum()), arrs, z3.IntSort(), arrs)
+
+
 def sorted_list(eng, st, v):
-    """sorted(list) = an ordered permutation: result is ascending and related to the input by a bijection
-    on indices (perm / inverse perm as uninterpreted index maps)."""
-    r = LIST(v.elem).fresh("sorted")
-    st.assume(r.len == v.len)
-    i, j = z3.Ints(fresh_name("i") + " " + fresh_name("j"))
-    if v.elem.z3sort() not in (z3.IntSort(), z3.RealSort()):
+    """sorted(list) = SORTED(list): a function of the argument (array, length) whose value is an ordered permutation of it: ascending, and
+    related to the input by a bijection on indices (perm / inverse perm as index maps).  Lists of Optional[int] sort by value and raise
+    TypeError when a None meets anything else."""
+    es = v.elem.z3sort()
+    arrs = z3.ArraySort(z3.IntSort(), es)
+    opt = isinstance(v.elem, OPT)
+    if not opt and es not in (z3.IntSort(), z3.RealSort()):
         raise Unsupported("sorted() of non-numeric list")
-    st.assume(z3.ForAll([i, j], z3.Implies(z3.And(0 <= i, i < j, j < r.len), r.arr[i] <= r.arr[j])))
+    if opt and v.elem.inner.z3sort() != z3.IntSort():
+        raise Unsupported("sorted() of a list of optional non-integers")
+    i, j = z3.Ints(fresh_name("i") + " " + fresh_name("j"))
+    if opt:
+        eng.oblige(st, "noexc", z3.Or(v.len < 2, z3.ForAll([i], z3.Implies(z3.And(i >= 0, i < v.len), z3.Not(v.elem.dt.is_none(v.arr[i]))))), "TypeError-sort-None")
+    f = sorted_fn(v.elem)
+    r = VList(v.elem, f(v.arr, v.len), v.len)
+    key = (lambda e: v.elem.dt.val(e)) if opt else (lambda e: e)
+    st.assume(z3.ForAll([i, j], z3.Implies(z3.And(0 <= i, i < j, j < r.len), key(r.arr[i]) <= key(r.arr[j]))))
     p = z3.Function(fresh_name("perm"), z3.IntSort(), z3.IntSort())
     q = z3.Function(fresh_name("iperm"), z3.IntSort(), z3.IntSort())
     st.assume(z3.ForAll([i], z3.Implies(z3.And(0 <= i, i < r.len), z3.And(0 <= p(i), p(i) < r.len, q(p(i)) == i, r.arr[i] == v.arr[p(i)]))))
@@ -507,6 +523,9 @@ def method_call(eng, recv, recv_node, name, node, st):
     kwargs = {k.arg: eng.eval(k.value, st) for k in node.keywords}
     if isinstance(recv, VModel):
         return recv.sym_call_method(eng, st, name, args, kwargs, node)
+    r = eng.model_hook(recv, "method", st, name, args, kwargs)
+    if r is not NotImplemented:
+        return r
     if hasattr(eng, "value_method"):
         r = eng.value_method(recv, name, args, st)
         if r is not NotImplemented:
